@@ -261,14 +261,16 @@ def r3_r4(p, rep):
             rep.add("C15.R4", f"{f.qualname}:lowering:expected_type", f"{f.module.rel}:{lowering[0].lineno}", et_l is not None and (et_f is None or norm(et_l) == norm(et_f)), f"lowering stage checks expected_type={norm(et_l) if et_l is not None else None}" + ("" if et_l is not None else ": the adapted function's return value is not type-checked"))
         # iskwarg wiring
         ik = common.kwarg(front[0].value, "iskwarg")
-        ikdef = [n.value for n in walk_no_nested(f.node) if isinstance(n, ast.Assign) and norm(n.targets[0]) == "iskwarg"]
+        # what is handed over as iskwarg=: the definition of that local (whatever it is called), or the expression itself
+        ikname = ik.id if isinstance(ik, ast.Name) else None
+        ikdef = [n.value for n in walk_no_nested(f.node) if isinstance(n, ast.Assign) and ikname is not None and norm(n.targets[0]) == ikname] if ikname else ([ik] if ik is not None else [])
         text = norm(ikdef[0]) if ikdef else ""
         is_reduce = "reduce" in f.name or norm(front[0].value.func).endswith(".reduce") or "functorchdim" in f.module.name
         # write out locals the definition refers to (`op_iskwarg = _make_iskwarg(op)`) and one level of helper
         extra_nodes = list(ikdef)
         if ikdef:
             for x in ast.walk(ikdef[0]):
-                if isinstance(x, ast.Name) and x.id not in (prm, "iskwarg", "name"):
+                if isinstance(x, ast.Name) and x.id not in (prm, ikname, "name"):
                     ds = [a.value for a in walk_no_nested(f.node) if isinstance(a, ast.Assign) and len(a.targets) == 1 and isinstance(a.targets[0], ast.Name) and a.targets[0].id == x.id]
                     if len(ds) == 1:
                         text += " :: " + norm(ds[0])
